@@ -69,6 +69,9 @@ func (pq *plotterQueue) Pop() (*queuedWorkSpace, float32) {
 	pq.Lock()
 	defer pq.Unlock()
 
+	if pq.Prque.Empty() {
+		return nil, 0
+	}
 	data, priority := pq.Prque.Pop()
 	ws := data.(*queuedWorkSpace)
 	pq.poppedItem = ws
@@ -79,6 +82,10 @@ func (pq *plotterQueue) PopItem() *queuedWorkSpace {
 	pq.Lock()
 	defer pq.Unlock()
 
+	// the queue may have been emptied (Delete, Reset) since the caller looked at it
+	if pq.Prque.Empty() {
+		return nil
+	}
 	ws := pq.Prque.PopItem().(*queuedWorkSpace)
 	pq.poppedItem = ws
 	return ws
@@ -196,6 +203,9 @@ func (sk *SpaceKeeper) spacePlotter() {
 			}
 
 			qws := sk.queue.PopItem()
+			if qws == nil {
+				break
+			}
 			killMonitorCh := make(chan struct{}, 1)
 			wg.Add(1)
 			go monitor(qws.ws, killMonitorCh)
